@@ -41,8 +41,7 @@ def main(tier):
         recs = json.load(open(rf))['recs']
         total += len(recs)
         runs += sum(len(x['runs']) for x in recs)
-        for m in re.finditer(r'<<"STAT", "ro", (\d+), (\d+)>>', r.out):
-            nontriv += int(m.group(2))
+        nontriv += sum(v[0] for v in V.stat(r.out, 'ro'))
         ev.sample({'set': name, 'rects_doubled': recs[len(recs) // 2]['rin2'][:6], 'first_run': {k: v for k, v in recs[len(recs) // 2]['runs'][0].items() if k != 'out'}})
         for inv, st in V.violating_states(r):
             for b in st.get('bad', []):
